@@ -35,11 +35,14 @@ def base_doc(tmp: Path, *, trace_mode: str, rs: Optional[Dict[str, Any]], detail
     nodes = [
         {"processor": "FloatValueDataSource"},
         {"processor": "VTouchOperation"},
+        {"processor": "VHandleProbe", "context_key": "spool"},      # leaves a value in the context that cannot be described (no repr, no JSON)
         {"processor": "VInterruptOperation"},
         {"processor": "FloatMultiplyOperation"},
         {"processor": "FloatCollectValueProbe", "context_key": "seen"},
         {"processor": "FloatMultiplyOperationWithDefault"},       # would pick up a leaked `factor`... uses ctx factor
         {"processor": "rename:seen:kept"},
+        # a DERIVED node (its preprocessor metadata is attached to the run's canonical spec): run i of a launch = a standalone run
+        {"processor": "VScaleProbe", "context_key": "swept", "derive": {"parameter_sweep": {"parameters": {"factor": "t"}, "variables": {"t": {"values": [1.0, 2.0]}}}}},
         {"processor": "FloatTxtFileSaver", "parameters": {"path": str(tmp / "out.txt")}},
     ]
     doc: Dict[str, Any] = {"extensions": ["semantiva-examples", "verif_ext"], "pipeline": {"nodes": nodes},
